@@ -45,6 +45,9 @@ WaitFrom == IF Mutant = 3 THEN lastDial ELSE failAt
 Expire == phase = "backoff" /\ now >= WaitFrom + lastBo /\ phase' = "idle" /\ UNCHANGED <<idx, now, lastDial, failAt, lastBo>>
 ResetBo == phase = "backoff" /\ phase' = "idle" /\ idx' = 0 /\ lastBo' = 0 /\ UNCHANGED <<now, lastDial, failAt>>
 Succeed == phase = "dialing" /\ phase' = "idle" /\ idx' = 0 /\ lastBo' = 0 /\ UNCHANGED <<now, lastDial, failAt>>
+\* the connection is established and lost before the transport is installed: still a successful connection
+\* (Mutant = 4: the index is reset only where the transport is installed)
+EstabClosed == phase = "dialing" /\ phase' = "idle" /\ idx' = (IF Mutant = 4 THEN idx ELSE 0) /\ lastBo' = 0 /\ UNCHANGED <<now, lastDial, failAt>>
 Tick == now < 3 * MaxFail + 3 /\ now' = now + 1 /\ UNCHANGED <<idx, lastDial, failAt, lastBo, phase>>
 \* Mutant = 2: the backoff wait is skipped
 Skip == Mutant = 2 /\ phase = "backoff" /\ phase' = "idle" /\ UNCHANGED <<idx, now, lastDial, failAt, lastBo>>
@@ -53,7 +56,7 @@ Init == \/ /\ kind = "fn" /\ PInit
            /\ x \in [b : Bases, m : Maxes, mu : Mults, j : Jits, n : Ns, k : Us]
         \/ kind = "pace" /\ x = 0 /\ PInit
 Next == \/ kind = "fn" /\ UNCHANGED vars
-        \/ kind = "pace" /\ UNCHANGED <<kind, x>> /\ (Dial \/ Fail \/ Expire \/ ResetBo \/ Succeed \/ Tick \/ Skip)
+        \/ kind = "pace" /\ UNCHANGED <<kind, x>> /\ (Dial \/ Fail \/ Expire \/ ResetBo \/ Succeed \/ EstabClosed \/ Tick \/ Skip)
 
 Sample == LET c == Cfg(x.b, x.m, x.mu, x.j) IN Conv(Ideal(c, x.n, x.k))
 I_NonNeg == kind = "fn" => Prop_NonNeg(Sample.neg)
@@ -63,4 +66,6 @@ I_Bounds == kind = "fn" =>
 \* a new attempt starts no earlier than the previous attempt's FAILURE + the backoff lower bound, unless reset
 I_Pace == kind = "pace" /\ phase = "backoff" => failAt >= lastDial /\ now >= failAt
 I_PaceStep == [][kind = "pace" /\ phase = "idle" /\ phase' = "dialing" /\ lastBo # 0 => now >= failAt + lastBo]_vars
+\* "the backoff index resets after a successful connection": every way out of an attempt other than a failure
+I_IndexReset == [][kind = "pace" /\ phase = "dialing" /\ phase' = "idle" => idx' = 0]_vars
 ====
